@@ -176,3 +176,23 @@ func H_C06_sort() {
 	}
 	cover("done")
 }
+
+// H_C06_sort_concrete: three distinct concrete indices from a set that contains leading zeros and the
+// digits 8 and 9 (so that numeric parsing shortcuts show), in every registration order.
+//verif:property C06
+//verif:preempt 0
+//verif:expect-cover done
+func H_C06_sort_concrete() {
+	cands := [...]string{"00", "05", "07", "08", "09", "10", "77"}
+	a, b, c := choose(len(cands)), choose(len(cands)), choose(len(cands))
+	if a == b || b == c || a == c {
+		assume(false)
+	}
+	r, _, _ := newEnvAdaptation([]string{cands[a], cands[b], cands[c]}, []EventMask{ValidEvents, ValidEvents, ValidEvents})
+	r.sortPlugins()
+	vassert(len(r.plugins) == 3, "plugin-lost")
+	for i := 0; i+1 < len(r.plugins); i++ {
+		vassert(r.plugins[i].idx < r.plugins[i+1].idx, "not-sorted-by-index")
+	}
+	cover("done")
+}
